@@ -391,17 +391,20 @@ func checkModelWith(solver *Solver, e *Engine, fresh map[*Term]bool, prefs map[*
 	seen := map[*Term]bool{}
 	lemmas := []*Term{}
 	t0 := time.Now()
-	if r == Sat && mod != nil && !modelValid(mod, q) {
+	if (r == Unknown || (r == Sat && mod != nil && !modelValid(mod, q))) && len(subterms(q, func(t *Term) bool { return t.kind == KApp && t.uf && refinableUF(t.op) })) > 0 {
 		// candidate witnesses: values on which library functions typically differ, for the atoms that
 		// flow into these functions; a candidate is accepted only if the solver finds a model with it
 		// and that model is valid under the native functions
 		tries := 0
 		for _, c := range trickyCandidates(q) {
-			if tries >= 60 || time.Since(t0) > 6*time.Second {
+			if tries >= 60 || time.Since(t0) > 15*time.Second {
 				break
 			}
 			tries++
-			if r2, mod2 := solver.CheckOn(1, append(append([]*Term{}, q...), c), true); r2 == Sat && mod2 != nil {
+			cq := append(append([]*Term{}, q...), TEq(c.a, TStr(c.v)))
+			cq = append(cq, candidateLemmas(e, q, c.a, c.v)...)
+			cq = append(cq, modelConstraintsForStage(e, fresh, q, true)...)
+			if r2, mod2 := solver.CheckOn(0, cq, true); r2 == Sat && mod2 != nil {
 				mod2.UF = e.evalUF
 				if modelValid(mod2, q) {
 					return r2, mod2
@@ -471,13 +474,20 @@ func checkModelStage(solver0 *Solver, e *Engine, fresh map[*Term]bool, prefs map
 		// keep a maximal consistent subset of the preferences (recursive halving)
 		acc := append([]*Term{}, q2...)
 		budget := 24
+		tKeep := time.Now()
 		var keep func(ps []*Term)
 		keep = func(ps []*Term) {
-			if len(ps) == 0 || budget <= 0 {
+			// (a query that times out ends the search for a consistent subset: hygiene is optional)
+			if len(ps) == 0 || budget <= 0 || time.Since(tKeep) > 12*time.Second {
 				return
 			}
 			budget--
-			if r, _ := solver.Check(append(append([]*Term{}, acc...), ps...), false); r == Sat {
+			r, _ := solver.Check(append(append([]*Term{}, acc...), ps...), false)
+			if r == Unknown {
+				budget = 0
+				return
+			}
+			if r == Sat {
 				acc = append(acc, ps...)
 				return
 			}
